@@ -455,6 +455,9 @@ impl BlockFilterRpc for BlockFilterRpcImpl {
         let mut last_key = Vec::new();
         let cells = iter
             .take_while(|(key, _value)| key.starts_with(&prefix))
+            // the args have no delimiter in the key: the key of a script with shorter args
+            // also starts with the prefix when the high bytes of its block number match
+            .filter(|(key, _value)| key.len() >= prefix.len() + CELL_KEY_TAIL_LEN)
             .filter_map(|(key, value)| {
                 let tx_hash = packed::Byte32::from_slice(&value).expect("stored tx hash");
                 let output_index = u32::from_be_bytes(
@@ -628,7 +631,10 @@ impl BlockFilterRpc for BlockFilterRpcImpl {
             let mut tx_with_cells: Vec<TxWithCells> = Vec::new();
             let mut last_key = Vec::new();
 
-            for (key, value) in iter.take_while(|(key, _value)| key.starts_with(&prefix)) {
+            for (key, value) in iter
+                .take_while(|(key, _value)| key.starts_with(&prefix))
+                .filter(|(key, _value)| key.len() >= prefix.len() + TX_KEY_TAIL_LEN)
+            {
                 let tx_hash = packed::Byte32::from_slice(&value).expect("stored tx hash");
                 if tx_with_cells.len() == limit
                     && tx_with_cells.last_mut().unwrap().transaction.hash != tx_hash.unpack()
@@ -742,6 +748,7 @@ impl BlockFilterRpc for BlockFilterRpcImpl {
             let mut last_key = Vec::new();
             let txs = iter
                 .take_while(|(key, _value)| key.starts_with(&prefix))
+                .filter(|(key, _value)| key.len() >= prefix.len() + TX_KEY_TAIL_LEN)
                 .filter_map(|(key, value)| {
                     let tx_hash = packed::Byte32::from_slice(&value).expect("stored tx hash");
                     let tx = packed::Transaction::from_slice(
@@ -862,6 +869,9 @@ impl BlockFilterRpc for BlockFilterRpcImpl {
 
         let capacity: u64 = iter
             .take_while(|(key, _value)| key.starts_with(&prefix))
+            // the args have no delimiter in the key: the key of a script with shorter args
+            // also starts with the prefix when the high bytes of its block number match
+            .filter(|(key, _value)| key.len() >= prefix.len() + CELL_KEY_TAIL_LEN)
             .filter_map(|(key, value)| {
                 let tx_hash = packed::Byte32::from_slice(&value).expect("stored tx hash");
                 let output_index = u32::from_be_bytes(
@@ -1069,6 +1079,11 @@ impl NetRpc for NetRpcImpl {
 const MAX_PREFIX_SEARCH_SIZE: usize = u16::max_value() as usize;
 
 // a helper fn to build query options from search paramters, returns prefix, from_key, direction and skip offset
+// the fixed-size part of an index key after the script: block number, tx index, io index
+const CELL_KEY_TAIL_LEN: usize = 8 + 4 + 4;
+// ... and the io type
+const TX_KEY_TAIL_LEN: usize = 8 + 4 + 4 + 1;
+
 fn build_query_options(
     search_key: &SearchKey,
     lock_prefix: KeyPrefix,
